@@ -48,6 +48,10 @@ impl Sim {
                 self.fs_after_call(r);
             }
         }
+        let q: Vec<(String, String)> = std::mem::take(&mut self.qmon.borrow_mut().found);
+        for (sig, detail) in q {
+            self.violation("C21", &format!("C21.{sig}"), &sig, detail);
+        }
     }
 
     pub fn finish(mut self, steps: Vec<Step>) -> Outcome {
@@ -58,6 +62,15 @@ impl Sim {
             for (k, v) in fs.counters() {
                 *self.stats.counters.entry(k.to_string()).or_insert(0) += v;
             }
+        }
+        crate::qmon::QMon::uninstall();
+        {
+            let q = self.qmon.borrow();
+            for (k, v) in &q.ops {
+                *self.stats.counters.entry(format!("c21.op.{k}")).or_insert(0) += v;
+                *self.stats.counters.entry("c21.ops".into()).or_insert(0) += v;
+            }
+            *self.stats.counters.entry("c21.transitions_checked".into()).or_insert(0) += q.checked;
         }
         // Drop replicas (closing simulated descriptors) before the simulated disk goes away.
         self.reps.clear();
